@@ -42,16 +42,18 @@ Print Assumptions C04_generation.
    same converter class with detailed validation on and off either both reject the input or both accept it
    with the same result -- through every collection loop (whose detailed and fast variants check things in
    a different order), heterogeneous tuples, mappings, Optional, NewType, Annotated and classes at any
-   depth.  (forbid_extra_keys off; with it on, the class level is C04_templates_agree / C10.) *)
+   depth, with forbid_extra_keys on or off (on: also whether the input is rejected for an unknown key at any class position --
+   the TypeError raised while the error message is built for a non-str key included). *)
 Theorem C04_nested_modes_agree :
-  forall (E : env) (gen dv1 dv2 : bool),
+  forall (E : env) (gen dv1 dv2 forbid : bool),
     (forall c cd, e_class E c = Some cd ->
-       wf val (topt (mk_cfg gen dv1 false false) c) nov (cd_fields cd) /\ (forall f, In f (cd_fields cd) -> f_init f = true)) ->
+       wf val (topt (mk_cfg gen dv1 false forbid) c) nov (cd_fields cd) /\ (forall f, In f (cd_fields cd) -> f_init f = true)) ->
     forall (n : nat) (t : ty) (o : val),
-      to_opt (structure E (mk_cfg gen dv1 false false) n t o) = to_opt (structure E (mk_cfg gen dv2 false false) n t o).
+      to_opt (structure E (mk_cfg gen dv1 false forbid) n t o) = to_opt (structure E (mk_cfg gen dv2 false forbid) n t o).
 Proof.
-  intros E gen dv1 dv2 Henv n t o.
-  apply structure_agree; [reflexivity | reflexivity | reflexivity | reflexivity | apply mk_cfg_recheck | apply mk_cfg_recheck | apply mk_cfg_kw_last | apply mk_cfg_kw_last | exact Henv | left; reflexivity].
+  intros E gen dv1 dv2 forbid Henv n t o.
+  apply structure_agree; [reflexivity | reflexivity | reflexivity | intros X; exfalso; apply X; reflexivity | apply mk_cfg_recheck | apply mk_cfg_recheck
+                          | apply mk_cfg_kw_last | apply mk_cfg_kw_last | exact Henv | left; reflexivity].
 Qed.
 Print Assumptions C04_nested_modes_agree.
 
